@@ -1,27 +1,671 @@
-//! C03 — not built yet (stub so that the binary links; `./check C03` reports INFRA until replaced).
+//! C03 — definite type mismatches are rejected at compile time (planted-fault search).
+//!
+//! Case = a well-typed generated base program (GenAST, core profile) + ONE mismatch from the catalogue
+//! (`c03_cat.rs`) planted at a generated placement (`syltmodel::plant`). The replay file stores the *planted*
+//! program; evaluation finds the raw node again (`c03_loc.rs`), derives the unplanted base (raw statement
+//! deleted / raw expression replaced by a literal of its type) and the **legal twin** (raw text swapped for a
+//! well-typed text of the same nominal type) and compiles all three:
+//!   base rejected      -> discard `base-rejected`
+//!   twin rejected      -> discard `twin-rejected/<family>` (the placement itself is illegal)
+//!   planted Accepted   -> violation `C03/accepted/<kind>/<how the value is used>`
+//!   planted Rejected with Lua bytes written -> violation `C03/wrote-lua-on-error`
+//!   planted Rejected, >= 1 error, 0 bytes   -> pass
+//!   planted panicked   -> discard (C07's business), labelled
+//! Dev switches: `C03_CENSUS=1` turns `accepted` violations into passes labelled `leak:<kind>:<use>` (to see the
+//! whole matrix at once), `C03_AVOID=0|1` forces the known-finding avoidance switch off / on.
+use crate::common::*;
 use arbitrary::Unstructured;
-use vcore::{Check, Labels, Plan, Tier, Verdict};
+use serde::{Deserialize, Serialize};
+use std::collections::BTreeMap;
+use syltmodel::ast::*;
+use syltmodel::gen::{Gen, GenCfg};
+use syltmodel::plant;
+use syltmodel::print::Plan as SurfacePlan;
+use vcore::{compile, Check, Labels, Outcome, Plan, Project, Stats, Step, Tape, Tier, Verdict};
 
-pub struct Stub;
-pub const CHECK: Stub = Stub;
-pub fn plan(_t: Tier) -> Plan {
-    Plan::new(1, 16)
+#[path = "c03_cat.rs"]
+mod cat;
+#[path = "c03_loc.rs"]
+mod loc;
+
+use cat::{Env, Form, Sel, P};
+
+pub struct C03;
+pub const CHECK: C03 = C03;
+pub fn plan(t: Tier) -> Plan {
+    Plan::new(t.pick(5_000, 100_000), t.pick(1800, 3000))
 }
-impl Check for Stub {
-    type Case = u8;
+
+#[derive(Clone, Serialize, Deserialize)]
+pub struct Case {
+    /// the planted program (a raw node carries `bad`)
+    pub prog: ProgCase,
+    pub kind: String,
+    /// exact text of the planted raw node
+    pub bad: String,
+    /// text of the legal twin (same site, well typed, same nominal type)
+    pub good: String,
+    /// text that turns the planted program back into an unplanted one; None = delete the raw statement
+    pub base: Option<String>,
+    /// the raw node is an expression (`EKind::Raw`) / a statement (`Stmt::Raw`)
+    pub is_expr: bool,
+    /// how the mismatching expression is embedded: wrapper name, `statement`, `replaced`, `globalinit`
+    pub embed: String,
+    /// compiled as an imported module (`/p/lib.sy` used from `/p/main.sy`)
+    pub module: bool,
+    /// known-finding avoidance switch was on when the case was generated
+    pub avoid: bool,
+    /// how the site was chosen: stmt-site | expr-site | new-unused-fn | new-global
+    pub mode: String,
+    /// placement reported by `syltmodel::plant` for the chosen site (cross-checked against c03_loc)
+    #[serde(default)]
+    pub site_placement: String,
+}
+
+const MODULE_MAIN: &str = "use lib\nstart :: fn do\n    lib.start()\nend\n";
+
+fn project(src: String, module: bool) -> Project {
+    if !module {
+        return Project::single(src);
+    }
+    let mut files = BTreeMap::new();
+    files.insert("/p/lib.sy".to_string(), src);
+    files.insert("/p/main.sy".to_string(), MODULE_MAIN.to_string());
+    Project { files, main: "/p/main.sy".into(), std: true, require: None }
+}
+
+fn supported_site_ty(t: &Ty) -> bool {
+    match t {
+        Ty::Int | Ty::Float | Ty::Str | Ty::Bool => true,
+        Ty::List(i) => P::of(i).is_some(),
+        Ty::Tuple(ts) => ts.len() == 2 && ts[0] == Ty::Int && (ts[1] == Ty::Int || ts[1] == Ty::Bool),
+        _ => false,
+    }
+}
+
+fn default_text(t: &Ty) -> String {
+    match t {
+        Ty::Int => "0".into(),
+        Ty::Float => "0.0".into(),
+        Ty::Str => "\"\"".into(),
+        Ty::Bool => "false".into(),
+        Ty::List(_) => "[]".into(),
+        Ty::Tuple(ts) => format!("({})", ts.iter().map(default_text).collect::<Vec<_>>().join(", ")),
+        _ => "0".into(),
+    }
+}
+
+/// Known findings (reported, see the check's report); with the avoidance switch on the generator stays away
+/// from their triggers:
+/// * `neg-non-number`: the `Neg` constraint is only *added* by the type checker and is checked when the operand's type
+///   variable is next unified; a negated non-number whose value is dropped (expression statement), or that sits in a
+///   tuple literal, is accepted. Avoidance: plant it only where its value is consumed by a unification.
+/// * `ret-in-if`: an `if` without `else` drops the return types of its branches, so a `ret` of the wrong type inside
+///   it is accepted. Avoidance: no wrong `ret` below an else-less `if`.
+fn neg_leaky_embed(embed: &str) -> bool {
+    matches!(embed, "unused-expression" | "paren-unused" | "closure-unused" | "tuple-element")
+}
+fn neg_leaky_site(l: &loc::Loc) -> bool {
+    l.value_unused || l.in_tuple || matches!(l.placement, "element" | "returnvalue")
+}
+
+fn add_helpers(prog: &mut Program, p: &cat::Plant) {
+    if p.needs_blob && !prog.blobs.iter().any(|b| b.name == "Zqb") {
+        prog.blobs.push(BlobDecl {
+            name: "Zqb".into(),
+            fields: vec![FieldDecl { name: "zf".into(), ty: Ty::Int }, FieldDecl { name: "zg".into(), ty: Ty::Str }],
+        });
+    }
+    if let Some(r) = p.needs_gfn {
+        let name = cat::gfn_name(r);
+        if !prog.vars.iter().any(|v| v.name == name) {
+            let fty = Ty::Fn(vec![Ty::Int, Ty::Str], Box::new(r.ty()), true);
+            let f = prog.new_var(name.to_string(), fty.clone(), VarKind::Global, false);
+            let a = prog.new_var("zqa".into(), Ty::Int, VarKind::Param, false);
+            let b = prog.new_var("zqb".into(), Ty::Str, VarKind::Param, false);
+            let value = match r {
+                P::Int => var(prog, a),
+                P::Str => var(prog, b),
+                P::Float => float("1.5"),
+                P::Bool => boolean(true),
+            };
+            let def = FnDef { params: vec![a, b], ret: r.ty(), body: Block { stmts: vec![], value: Some(Box::new(value)) }, pure: true };
+            prog.globals.insert(0, Global { var: f, mutable: false, value: e(fty, EKind::Lambda(Box::new(def))) });
+        }
+    }
+}
+
+fn stmt_class(p: &Program, s: &plant::StmtSite) -> String {
+    match s.ctx.placement {
+        plant::Placement::FnBody => {
+            if s.ctx.global_is_start {
+                "fnbody-start".into()
+            } else if plant::global_is_used(p, s.ctx.global) {
+                "fnbody-used".into()
+            } else {
+                "fnbody-unused".into()
+            }
+        }
+        other => loc::placement_name(other).to_string(),
+    }
+}
+
+struct Chosen {
+    plant: cat::Plant,
+    /// final raw text (wrapped) and its twin
+    bad: String,
+    good: String,
+    embed: String,
+}
+
+/// kinds that have a spelling for this site (probed on a copy of the choice source), minus the forbidden ones
+fn available(want: Option<&Ty>, env: &Env, forbid: &[&str], sel: &Sel) -> Vec<&'static str> {
+    cat::ALL_KINDS
+        .iter()
+        .copied()
+        .filter(|k| !forbid.contains(k))
+        .filter(|k| match cat::make(k, want, env, &mut sel.clone()) {
+            Some(p) => match (&p.form, want) {
+                (Form::Expr(Some(t)), Some(w)) => t == w,
+                (_, Some(_)) => false,
+                (Form::Stmt, None) => env.stmts,
+                (Form::Expr(_), None) => true,
+            },
+            None => false,
+        })
+        .collect()
+}
+
+/// choose a kind uniformly among those with a spelling for a statement-level site (or a global initialiser when
+/// `env.stmts` is false) and, for expression plants, a wrapper
+fn choose_stmt_level(env: &Env, avoid: bool, forbid: &[&str], sel: &mut Sel) -> Option<Chosen> {
+    let kinds = available(None, env, forbid, sel);
+    if kinds.is_empty() {
+        return None;
+    }
+    let kind = *sel.pick(&kinds);
+    let p = cat::make(kind, None, env, sel)?;
+    Some(match p.form.clone() {
+        Form::Stmt => Chosen { bad: p.bad.clone(), good: p.good.clone(), embed: "statement".into(), plant: p },
+        Form::Expr(_) => {
+            let neg_avoid = |w: &str| avoid && kind == "neg-non-number" && neg_leaky_embed(w);
+            if env.stmts {
+                let ws: Vec<&str> =
+                    cat::WRAPPERS.iter().filter(|(w, impure)| !(*impure && env.pure_) && !neg_avoid(w)).map(|(w, _)| *w).collect();
+                let w = *sel.pick(&ws);
+                Chosen { bad: cat::wrap(w, &p.bad, env.pure_), good: cat::wrap(w, &p.good, env.pure_), embed: w.into(), plant: p }
+            } else {
+                let ws: Vec<&str> = ["globalinit", "tuple-element", "list-element"].iter().copied().filter(|w| !neg_avoid(w)).collect();
+                let w = *sel.pick(&ws);
+                Chosen { bad: cat::wrap_expr(w, &p.bad), good: cat::wrap_expr(w, &p.good), embed: w.into(), plant: p }
+            }
+        }
+    })
+}
+
+fn choose_expr_level(ty: &Ty, l: &loc::Loc, avoid: bool, sel: &mut Sel) -> Option<Chosen> {
+    if l.placement == "condition" && *ty == Ty::Bool && sel.chance(1, 3) {
+        let p = cat::cond_literal(sel);
+        return Some(Chosen { bad: format!("({})", p.bad), good: format!("({})", p.good), embed: "replaced".into(), plant: p });
+    }
+    let env = Env { pure_: l.in_pure, ret: None, stmts: false };
+    let forbid: &[&str] = if avoid && neg_leaky_site(l) { &["neg-non-number"] } else { &[] };
+    let kinds = available(Some(ty), &env, forbid, sel);
+    if kinds.is_empty() {
+        return None;
+    }
+    let kind = *sel.pick(&kinds);
+    let p = cat::make(kind, Some(ty), &env, sel)?;
+    Some(Chosen { bad: format!("({})", p.bad), good: format!("({})", p.good), embed: "replaced".into(), plant: p })
+}
+
+fn pick_class<'m, T>(m: &'m BTreeMap<String, Vec<T>>, sel: &mut Sel) -> Option<(&'m String, &'m Vec<T>)> {
+    if m.is_empty() {
+        return None;
+    }
+    let i = sel.below(m.len());
+    m.iter().nth(i)
+}
+
+const MARKER: &str = "zq_marker_zq";
+
+struct Built {
+    c: Chosen,
+    mode: &'static str,
+    is_expr: bool,
+    base: Option<String>,
+    site_placement: String,
+}
+
+impl C03 {
+    fn build(&self, base: Program, avoid: bool, module: bool, sel: &mut Sel) -> Option<Case> {
+        let mut prog = base;
+        let mode = match sel.below(20) {
+            0..=9 => 0,
+            10..=16 => 1,
+            17..=18 => 2,
+            _ => 3,
+        };
+        let (stmt_sites, expr_sites) = plant::sites(&prog);
+        let mut built: Option<Built> = None;
+
+        if mode == 1 {
+            let mut classes: BTreeMap<String, Vec<usize>> = BTreeMap::new();
+            for (i, s) in expr_sites.iter().enumerate() {
+                if supported_site_ty(&s.ty) {
+                    classes.entry(loc::placement_name(s.ctx.placement).to_string()).or_default().push(i);
+                }
+            }
+            if let Some((cl, idxs)) = pick_class(&classes, sel) {
+                let idx = idxs[sel.below(idxs.len())];
+                let site = &expr_sites[idx];
+                let mut q = plant::replace_expr(&prog, idx, e(site.ty.clone(), EKind::Raw(MARKER.into())));
+                if let Some(l) = loc::find(&q, MARKER, true) {
+                    if let Some(c) = choose_expr_level(&site.ty, &l, avoid, sel) {
+                        loc::apply(&mut q, MARKER, true, loc::Action::SetText(c.bad.clone()));
+                        prog = q;
+                        let base_text = format!("({})", default_text(&site.ty));
+                        built = Some(Built { c, mode: "expr-site", is_expr: true, base: Some(base_text), site_placement: cl.clone() });
+                    }
+                }
+            }
+        }
+        if mode == 2 {
+            // a new top-level function nobody calls, the plant at a chosen nesting inside it
+            let pure_ = sel.chance(1, 3);
+            let fn_ret = if sel.chance(1, 2) { Some(*sel.pick(&cat::PRIMS)) } else { None };
+            let nesting = sel.below(6);
+            let env = Env { pure_, ret: if nesting == 4 { None } else { fn_ret }, stmts: true };
+            // nesting 1 is an `if` without `else`
+            let forbid: &[&str] = if avoid {
+                if nesting == 1 {
+                    &["ret-in-if", "ret-enclosing"]
+                } else {
+                    &["ret-in-if"]
+                }
+            } else {
+                &[]
+            };
+            if let Some(c) = choose_stmt_level(&env, avoid, forbid, sel) {
+                let raw = Stmt::Raw(c.bad.clone());
+                let inner: Vec<Stmt> = match nesting {
+                    0 | 5 => vec![raw],
+                    1 => vec![Stmt::Expr(e(Ty::Void, EKind::If(vec![(boolean(true), Block { stmts: vec![raw], value: None })], None)))],
+                    2 => vec![Stmt::Loop { cond: None, body: Block { stmts: vec![raw, Stmt::Break], value: None } }],
+                    3 => vec![Stmt::Block(Block { stmts: vec![raw], value: None })],
+                    _ => {
+                        let hty = Ty::Fn(vec![], Box::new(Ty::Void), pure_);
+                        let h = prog.new_var("zqh".into(), hty.clone(), VarKind::Local, false);
+                        let def = FnDef { params: vec![], ret: Ty::Void, body: Block { stmts: vec![raw], value: None }, pure: pure_ };
+                        vec![Stmt::Def { var: h, mutable: false, value: e(hty, EKind::Lambda(Box::new(def))) }]
+                    }
+                };
+                let ret_ty = fn_ret.map(|p| p.ty()).unwrap_or(Ty::Void);
+                let value = fn_ret.map(|p| {
+                    Box::new(match p {
+                        P::Int => int(1),
+                        P::Float => float("1.0"),
+                        P::Str => string("a"),
+                        P::Bool => boolean(true),
+                    })
+                });
+                let fty = Ty::Fn(vec![], Box::new(ret_ty.clone()), pure_);
+                let f = prog.new_var("zqf".into(), fty.clone(), VarKind::Global, false);
+                let def = FnDef { params: vec![], ret: ret_ty, body: Block { stmts: inner, value }, pure: pure_ };
+                let at = prog.globals.len().saturating_sub(1);
+                prog.globals.insert(at, Global { var: f, mutable: false, value: e(fty, EKind::Lambda(Box::new(def))) });
+                built = Some(Built { c, mode: "new-unused-fn", is_expr: false, base: None, site_placement: String::new() });
+            }
+        }
+        if mode == 3 {
+            let env = Env { pure_: false, ret: None, stmts: false };
+            if let Some(c) = choose_stmt_level(&env, avoid, &[], sel) {
+                let ty = match &c.plant.form {
+                    Form::Expr(Some(t)) if c.embed == "globalinit" => t.clone(),
+                    _ => Ty::Int,
+                };
+                let mutable = sel.chance(1, 2);
+                let v = prog.new_var("zqv".into(), ty.clone(), VarKind::Global, mutable);
+                let at = prog.globals.len().saturating_sub(1);
+                prog.globals.insert(at, Global { var: v, mutable, value: e(ty, EKind::Raw(c.bad.clone())) });
+                built = Some(Built { c, mode: "new-global", is_expr: true, base: Some("0".into()), site_placement: "globalinit".into() });
+            }
+        }
+        if built.is_none() {
+            // mode 0, and the fallback of the other modes
+            let mut classes: BTreeMap<String, Vec<usize>> = BTreeMap::new();
+            for (i, s) in stmt_sites.iter().enumerate() {
+                classes.entry(stmt_class(&prog, s)).or_default().push(i);
+            }
+            let (_, idxs) = pick_class(&classes, sel)?;
+            let idx = idxs[sel.below(idxs.len())];
+            let site = &stmt_sites[idx];
+            let mut q = plant::insert_stmt(&prog, idx, Stmt::Raw(MARKER.into()));
+            let l = loc::find(&q, MARKER, false)?;
+            let env = Env { pure_: site.ctx.in_pure, ret: P::of(&site.ctx.ret), stmts: true };
+            let forbid: &[&str] = if avoid {
+                if l.in_elseless_if {
+                    &["ret-in-if", "ret-enclosing"]
+                } else {
+                    &["ret-in-if"]
+                }
+            } else {
+                &[]
+            };
+            let mut c = choose_stmt_level(&env, avoid, forbid, sel)?;
+            // an expression statement at the end of a branch would become the branch's value: mostly keep it inside
+            if matches!(site.ctx.placement, plant::Placement::Branch | plant::Placement::CaseArm) && site.pos == site.block_len && sel.chance(3, 4) {
+                c.bad.push_str("\nzq0 :: 0");
+                c.good.push_str("\nzq0 :: 0");
+            }
+            loc::apply(&mut q, MARKER, false, loc::Action::SetText(c.bad.clone()));
+            prog = q;
+            let pl = loc::placement_name(site.ctx.placement).to_string();
+            built = Some(Built { c, mode: "stmt-site", is_expr: false, base: None, site_placement: pl });
+        }
+        let Built { c, mode: mode_name, is_expr, base: base_text, site_placement } = built?;
+        add_helpers(&mut prog, &c.plant);
+        let plan = SurfacePlan::default();
+        let source = render(&prog, &plan).text;
+        Some(Case {
+            prog: ProgCase { prog, plan, source },
+            kind: c.plant.kind.to_string(),
+            bad: c.bad,
+            good: c.good,
+            base: base_text,
+            is_expr,
+            embed: c.embed,
+            module,
+            avoid,
+            mode: mode_name.to_string(),
+            site_placement,
+        })
+    }
+}
+
+fn err_class(o: &Outcome) -> String {
+    match o {
+        Outcome::Rejected { errors, .. } if !errors.is_empty() => {
+            if errors[0].sub.is_empty() {
+                errors[0].kind.clone()
+            } else {
+                format!("{}:{}", errors[0].kind, errors[0].sub)
+            }
+        }
+        Outcome::Rejected { .. } => "no-error".into(),
+        Outcome::Panicked { .. } => "panic".into(),
+        Outcome::Accepted(_) => "accepted".into(),
+    }
+}
+
+impl Check for C03 {
+    type Case = Case;
     fn id(&self) -> &'static str {
         "C03"
     }
-    fn generate(&self, _u: &mut Unstructured, _tier: Tier) -> Option<u8> {
-        None
+
+    fn generate(&self, u: &mut Unstructured, tier: Tier) -> Option<Case> {
+        let mut t = Tape::new(u);
+        // plant choices are drawn before the base program so that a short tape does not pin them to 0
+        let mut sel = Sel { bytes: (0..40).map(|_| t.byte()).collect(), i: 0 };
+        // known-finding avoidance (DESIGN §2.6): on for 80 % of the budget
+        let mut avoid = !sel.chance(1, 5);
+        match std::env::var("C03_AVOID").as_deref() {
+            Ok("0") => avoid = false,
+            Ok("1") => avoid = true,
+            _ => {}
+        }
+        let module = sel.chance(1, 6);
+        let cfg = GenCfg::core(tier == Tier::Thorough);
+        let base = Gen::new(&mut t, cfg).program();
+        self.build(base, avoid, module, &mut sel)
     }
-    fn evaluate(&self, _case: &u8, _labels: &mut Labels) -> Verdict {
-        Verdict::Discard("stub".into())
+
+    fn evaluate(&self, case: &Case, labels: &mut Labels) -> Verdict {
+        let planted = &case.prog.prog;
+        let l = match loc::find(planted, &case.bad, case.is_expr) {
+            Some(l) => l,
+            None => return Verdict::Discard("plant-missing".into()),
+        };
+        // ---- classification
+        let gname = planted.var(l.global).name.clone();
+        let region = if !l.global_is_fn {
+            "global-init"
+        } else if gname == "start" {
+            "start"
+        } else if plant::global_is_used(planted, l.global) {
+            "used-fn"
+        } else {
+            "unused-fn"
+        };
+        let placement: String = if l.placement == "fnbody" { format!("fnbody-{}", region) } else { l.placement.to_string() };
+        let use_class: &str = if case.is_expr && case.embed == "replaced" {
+            if l.value_unused {
+                "unused-expression"
+            } else if l.in_tuple {
+                "tuple-element"
+            } else {
+                l.placement
+            }
+        } else if case.embed == "globalinit" {
+            "definition"
+        } else {
+            cat::use_class(&case.embed)
+        };
+        let value_unused = use_class == "unused-expression";
+        // a wrong `ret` against the enclosing function's declared type below an else-less `if` is the `ret-in-if` kind
+        let kind: &str = if case.kind == "ret-enclosing" && l.in_elseless_if { "ret-in-if" } else { &case.kind };
+        labels.add(format!("kind:{}", kind));
+        labels.add(format!("family:{}", cat::family_of(kind)));
+        labels.add(format!("placement:{}", placement));
+        labels.add(format!("cell:{}:{}", kind, placement));
+        labels.add(format!("region:{}", region));
+        labels.add(format!("embed:{}", case.embed));
+        labels.add(format!("use:{}", use_class));
+        labels.add(format!("usecell:{}:{}", kind, use_class));
+        labels.add(format!("mode:{}", case.mode));
+        labels.add(format!("depth:{}", l.depth.min(7)));
+        labels.add(format!("closure-depth:{}", l.closure_depth.min(4)));
+        if l.in_pure {
+            labels.add("in-pure-function");
+        }
+        if l.in_loop {
+            labels.add("in-loop");
+        }
+        if l.last_in_block {
+            labels.add("last-in-block");
+        }
+        if case.module {
+            labels.add("imported-module");
+        }
+        if !case.avoid {
+            labels.add("avoidance-off");
+        }
+        if !case.site_placement.is_empty() && case.site_placement != l.placement {
+            labels.add("placement-disagrees");
+        }
+
+        // ---- the three programs
+        let mut base = planted.clone();
+        let ok = match &case.base {
+            None => loc::apply(&mut base, &case.bad, case.is_expr, loc::Action::Remove),
+            Some(t) => loc::apply(&mut base, &case.bad, case.is_expr, loc::Action::SetText(t.clone())),
+        };
+        let mut twin = planted.clone();
+        let ok2 = loc::apply(&mut twin, &case.bad, case.is_expr, loc::Action::SetText(case.good.clone()));
+        if ok.is_none() || ok2.is_none() {
+            return Verdict::Discard("plant-missing".into());
+        }
+        let plan = &case.prog.plan;
+        let src_planted = render(planted, plan).text;
+        let o_base = compile(&project(render(&base, plan).text, case.module));
+        if !o_base.is_accepted() {
+            labels.add(format!("base-rejected:{}", err_class(&o_base)));
+            return Verdict::Discard("base-rejected".into());
+        }
+        let src_twin = render(&twin, plan).text;
+        let o_twin = compile(&project(src_twin.clone(), case.module));
+        if !o_twin.is_accepted() {
+            labels.add(format!("twin-rejected:{}:{}:{}", kind, placement, err_class(&o_twin)));
+            if let Ok(d) = std::env::var("C03_SAVE_TWIN") {
+                let _ = std::fs::create_dir_all(&d);
+                let _ = std::fs::write(
+                    format!("{}/twin_{:x}.sy", d, vcore::hash64(&src_twin)),
+                    format!("// {} {} {}\n// {}\n{}", kind, placement, case.embed, o_twin.short(), src_twin),
+                );
+            }
+            return Verdict::Discard(format!("twin-rejected/{}", cat::family_of(kind)));
+        }
+        let o = compile(&project(src_planted.clone(), case.module));
+        let describe = |what: &str| -> String {
+            format!(
+                "{}\nmismatch kind: {} ({}); planted text: {:?}; legal twin (accepted): {:?}\nplacement: {} (region {}, depth {}, closure depth {}), value use: {}, imported module: {}\n--- planted source{} ---\n{}",
+                what,
+                kind,
+                cat::family_of(kind),
+                case.bad,
+                case.good,
+                placement,
+                region,
+                l.depth,
+                l.closure_depth,
+                use_class,
+                case.module,
+                if case.module { " (/p/lib.sy, used from /p/main.sy)" } else { "" },
+                src_planted
+            )
+        };
+        match &o {
+            Outcome::Panicked { message, location, .. } => {
+                labels.add(format!("planted-panicked:{}", location));
+                let _ = message;
+                Verdict::Discard("planted-panicked".into())
+            }
+            Outcome::Accepted(lua) => {
+                if std::env::var("C03_CENSUS").is_ok() {
+                    labels.add(format!("leak:{}:{}:{}", kind, use_class, placement));
+                    if let Ok(d) = std::env::var("C03_SAVE_LEAK") {
+                        let _ = std::fs::create_dir_all(&d);
+                        let _ = std::fs::write(
+                            format!("{}/leak_{}_{}_{:x}.sy", d, kind, use_class, vcore::hash64(&src_planted)),
+                            format!("// {} {} {} planted={:?}\n{}", kind, placement, case.embed, case.bad, src_planted),
+                        );
+                    }
+                    return Verdict::Pass { nontrivial: false };
+                }
+                Verdict::Violation {
+                    signature: format!("C03/accepted/{}/{}", kind, use_class),
+                    detail: describe(&format!(
+                        "a program with a definite type mismatch was accepted ({} bytes of Lua written); expected: rejected with an error, no Lua",
+                        lua.len()
+                    )),
+                }
+            }
+            Outcome::Rejected { errors, bytes_written } => {
+                if *bytes_written > 0 {
+                    return Verdict::Violation {
+                        signature: "C03/wrote-lua-on-error".into(),
+                        detail: describe(&format!("the program was rejected ({}) but {} bytes of Lua were written", o.short(), bytes_written)),
+                    };
+                }
+                if errors.is_empty() {
+                    return Verdict::Violation {
+                        signature: "C03/rejected-without-error".into(),
+                        detail: describe("the compiler returned failure with an empty error list"),
+                    };
+                }
+                labels.add(format!("err:{}:{}", kind, err_class(&o)));
+                if errors[0].kind != "Type" {
+                    // the twin differs from the plant in literals only, so this would be a defect of the catalogue
+                    labels.add(format!("non-type-error:{}:{}", kind, errors[0].kind));
+                    return Verdict::Discard("plant-rejected-by-non-type-error".into());
+                }
+                let trivial = region == "start" && l.placement == "fnbody" && l.depth == 0 && !value_unused && !case.module;
+                Verdict::Pass { nontrivial: !trivial }
+            }
+        }
     }
+
+    fn simplify_at(&self, case: &Case, idx: usize) -> Step<Case> {
+        match shrink_step(&case.prog, idx) {
+            Step::End => Step::End,
+            Step::Skip => Step::Skip,
+            Step::Candidate(p) => Step::Candidate(Case { prog: p, ..case.clone() }),
+        }
+    }
+
+    fn sample(&self, case: &Case) -> serde_json::Value {
+        vcore::truncate_value(
+            serde_json::json!({
+                "kind": case.kind, "planted": case.bad, "twin": case.good, "embed": case.embed, "mode": case.mode,
+                "imported_module": case.module, "source": render(&case.prog.prog, &case.prog.plan).text
+            }),
+            2500,
+        )
+    }
+
     fn rule(&self) -> String {
-        "stub".into()
+        format!(
+            "cases: a well-typed generated base program (GenAST core profile) + one definite type mismatch out of {} kinds \
+             (operators on literal operands of incompatible types incl. tuples, unary - / not on non-numbers / non-bools, calls of a \
+             planted annotated function with too few / too many / wrongly typed arguments, values contradicting a planted annotation of a \
+             variable, parameter, return (implicit, `ret`, and `ret` against the enclosing function's declared type), blob field (initialiser \
+             and assignment), assignment to an annotated variable, non-bool if / elif / loop conditions, heterogeneous lists, calls of \
+             non-functions, void stored in a variable), every operand a literal or a fresh name typed by the planted text itself. \
+             Placement from syltmodel::plant: as raw statement(s) in a function body of start / a called function / an uncalled function, \
+             closure, method, if branch, case arm, loop body, do block at any depth (expression plants wrapped as unused expression \
+             statement, parenthesised, const / mutable definition, tuple element, list element, print argument, body of an unused local closure), \
+             or replacing an expression of the plant's nominal type (global initialiser, argument, operand, field initialiser, condition, \
+             definition value, element, return value, whole expression statement), or inside a new uncalled function (direct / if / loop / do / closure), \
+             or as a new global's initialiser; 1 in 6 as an imported module. Oracle: unplanted base accepted (else discard), legal twin at the \
+             same site accepted (else discard), planted program => Rejected with >= 1 type error and 0 bytes of Lua. \
+             non-trivial = placement other than 'statement directly in start' or mismatch in a value-unused position; distinct by case hash",
+            cat::ALL_KINDS.len()
+        )
     }
-    fn health(&self, _s: &vcore::Stats) -> Result<(), String> {
-        Err("check not built yet".into())
+
+    fn assumptions(&self) -> Vec<String> {
+        vec![
+            "the catalogue's spellings are mismatches by the language's documented typing (no implicit int/float/str/bool coercions; unary - on numbers only; conditions are bool; list elements share one type; void is not a value); `1 <= 1.0`-style mixed ordering comparisons are not used".into(),
+            "the legal twin differs from the plant in literal tokens only, so a rejection of the planted program with the twin accepted is attributed to the mismatch".into(),
+        ]
+    }
+
+    fn health(&self, s: &Stats) -> Result<(), String> {
+        if s.evaluations < 2000 {
+            return Ok(());
+        }
+        let discards: u64 = s.discards.values().sum();
+        if discards * 100 > s.evaluations * 30 {
+            return Err(format!("{} of {} cases discarded: {:?}", discards, s.evaluations, s.discards));
+        }
+        if s.discard("plant-rejected-by-non-type-error") * 200 > s.evaluations {
+            return Err("planted programs are rejected by non-type errors (catalogue spelling defect)".into());
+        }
+        if s.label("placement-disagrees") > 0 {
+            return Err("c03_loc and syltmodel::plant disagree about a placement".into());
+        }
+        for k in cat::ALL_KINDS {
+            if s.label(&format!("kind:{}", k)) == 0 {
+                return Err(format!("mismatch kind {} was never planted", k));
+            }
+        }
+        for p in [
+            "fnbody-start", "fnbody-used-fn", "fnbody-unused-fn", "closure", "method", "branch", "casearm", "loopbody", "doblock", "globalinit",
+            "argument", "operand", "fieldinit", "condition", "defvalue", "element", "returnvalue",
+        ] {
+            if s.label(&format!("placement:{}", p)) == 0 {
+                return Err(format!("placement class {} was never hit", p));
+            }
+        }
+        for r in ["region:start", "region:used-fn", "region:unused-fn", "region:global-init", "imported-module", "use:unused-expression", "in-pure-function", "in-loop"] {
+            if s.label(r) == 0 {
+                return Err(format!("{} was never hit", r));
+            }
+        }
+        if (s.nontrivial as f64) < 0.5 * s.evaluations as f64 {
+            return Err(format!("only {} of {} cases are non-trivial", s.nontrivial, s.evaluations));
+        }
+        Ok(())
     }
 }
